@@ -25,6 +25,10 @@ mod world_ops;
 mod world_probes;
 
 pub use hpke_dyn::shim;
+pub use hpke_dyn::heapscan;
+
+#[global_allocator]
+static GLOBAL: hpke_dyn::heapscan::ScanAlloc = hpke_dyn::heapscan::ScanAlloc;
 pub mod suites {
     pub use hpke_dyn::suites::*;
     pub fn suite(id: SuiteId) -> &'static dyn Suite {
@@ -312,7 +316,50 @@ fn known_match<'a>(k: &'a [Known], v: &Violation) -> Option<&'a Known> {
     k.iter().find(|k| k.property == v.property && shrink::inv_class(&v.invariant) == k.invariant && v.observed.contains(&k.observed_contains) && v.expected.contains(&k.expected_contains))
 }
 
+fn stack_transcript() -> u64 {
+    use suites::*;
+    let mut f = util::Fnv::new();
+    let long: Vec<u8> = (0..700u32).map(|i| (i * 7) as u8).collect();
+    for kem in KEMS {
+        for (kdf, aead) in [(KdfId::S256, AeadId::Aes128), (KdfId::S384, AeadId::ChaCha), (KdfId::S512, AeadId::Aes256), (KdfId::S512, AeadId::Export)] {
+            let su = suite(SuiteId { kem, kdf, aead, shim: false });
+            let (sk_r, pk_r) = su.derive_keypair(b"stack probe recipient").expect("derive");
+            let (sk_s, pk_s) = su.derive_keypair(&long).expect("derive");
+            let ms = ModeS { kind: Some(ModeKind::AuthPsk), psk: long.clone(), psk_id: long[..300].to_vec(), sk_s: sk_s.clone(), pk_s: pk_s.clone() };
+            let mr = ModeR { kind: Some(ModeKind::AuthPsk), psk: long.clone(), psk_id: long[..300].to_vec(), pk_s: pk_s.clone() };
+            let mut rng = shim::ScriptRng::new(&[0x42u8; 66]);
+            let (enc, mut s) = su.setup_sender(&ms, &pk_r, &long, &mut rng).expect("setup_s");
+            let mut r = su.setup_receiver(&mr, &sk_r, &enc, &long).expect("setup_r");
+            f.put(&enc);
+            if aead.seals() {
+                let ct = s.seal(&long, &long[..333]).expect("seal");
+                f.put(&ct);
+                let pt = r.open(&ct, &long[..333]).expect("open");
+                assert_eq!(pt, long);
+                let mut buf = long.clone();
+                let tag = s.seal_in_place(&mut buf, &long).expect("seal in place");
+                r.open_in_place(&mut buf, &long, &tag).expect("open in place");
+                let mut rng = shim::ScriptRng::new(&[0x43u8; 66]);
+                let (enc2, ct2) = su.ss_seal(&ms, &pk_r, &long, &long, &long, &mut rng).expect("ss_seal");
+                let pt2 = su.ss_open(&mr, &sk_r, &enc2, &long, &ct2, &long).expect("ss_open");
+                assert_eq!(pt2, long);
+            }
+            for l in [0usize, 32, 255 * kdf.nh()] {
+                let a = s.export(&long, l).expect("export");
+                let b = r.export(&long, l).expect("export");
+                assert_eq!(a, b);
+                f.put(&a);
+            }
+            let _ = su.recode(Kind::Pk, &pk_r);
+        }
+    }
+    f.0
+}
+
 fn silence_panics() {
+    if std::env::var("HPKE_HEAP_DEBUG").is_ok() {
+        heapscan::DEBUG.store(true, std::sync::atomic::Ordering::Relaxed);
+    }
     std::panic::set_hook(Box::new(|info| {
         // panics inside observed calls are outcomes; harness panics are marked and reported
         let msg = info.to_string();
@@ -740,6 +787,43 @@ fn main() {
             let th = a.pos.get(1).and_then(|x| x.parse().ok()).unwrap_or(16usize);
             special::find_nonce(th, z);
             0
+        }
+        "findsk" => {
+            let kem = match a.pos.get(0).map(|s| s.as_str()) {
+                Some("P256") => suites::KemId::P256,
+                Some("P384") => suites::KemId::P384,
+                _ => suites::KemId::P521,
+            };
+            let prefix = util::unhex(a.pos.get(1).map(|s| s.as_str()).unwrap_or("0000"));
+            let th = a.pos.get(2).and_then(|x| x.parse().ok()).unwrap_or(16usize);
+            special::find_sk(th, kem, &prefix);
+            0
+        }
+        "findss" => {
+            let shape: &'static str = match a.pos.get(0).map(|s| s.as_str()) {
+                Some("trail4zero") => "trail4zero",
+                Some("every8th-zero") => "every8th-zero",
+                _ => "lead4zero",
+            };
+            special::find_ss(a.pos.get(1).and_then(|x| x.parse().ok()).unwrap_or(16), shape);
+            0
+        }
+        "findskweight" => {
+            special::find_sk_weight(16);
+            0
+        }
+        "stackprobe" => {
+            // a fixed transcript (every KEM, Auth+PSK mode, long info / aad / exporter context) on a
+            // thread with the given stack size; the process dies if that is not enough
+            let kib: usize = a.pos.get(0).and_then(|x| x.parse().ok()).unwrap_or(256);
+            let h = std::thread::Builder::new().stack_size(kib * 1024).spawn(stack_transcript).expect("spawn");
+            match h.join() {
+                Ok(d) => {
+                    println!("stackprobe ok kib={} digest={:016x}", kib, d);
+                    0
+                }
+                Err(_) => 1,
+            }
         }
         "c18ref" => cmd_c18ref(&a),
         "selftest" => {
